@@ -1,6 +1,8 @@
 package arrow_record
 
 import (
+	"bytes"
+
 	"go.opentelemetry.io/collector/pdata/pcommon"
 	"go.opentelemetry.io/collector/pdata/plog"
 
@@ -62,9 +64,16 @@ func verifRoundTripLogs(p *Producer, c *Consumer, ld plog.Logs, tag string) {
 	orig := plog.NewLogs()
 	ld.CopyTo(orig)
 	rt.WatchBegin("input", ld)
-	h0 := rt.WatchHits()
+	h0 := rt.WatchChangedTag("input")
 	bar, err := p.BatchArrowRecordsFromLogs(ld)
-	rt.Assert(rt.WatchHits() == h0, "C15.frame_input.logs_untouched")
+	// the engine decides the frame condition on its store instructions; the compiled harness (replay) compares
+	// the serialisation of the input with that of the copy taken before the call
+	same := rt.NativeCheck(func() bool {
+		x, e1 := (&plog.ProtoMarshaler{}).MarshalLogs(ld)
+		y, e2 := (&plog.ProtoMarshaler{}).MarshalLogs(orig)
+		return e1 == nil && e2 == nil && bytes.Equal(x, y)
+	})
+	rt.Assert(rt.WatchChangedTag("input") == h0 && same, "C15.frame_input.logs_untouched")
 	rt.WatchEndTag("input")
 	rt.Assert(err == nil, tag+".encode_ok")
 	if err != nil {
